@@ -53,6 +53,10 @@ func c17build(n *c17node) RedisMessage {
 	return m
 }
 
+// c17lenient: the comparison looks only at what the accessors of the message's own type can see (a reused message
+// may keep a stale child pointer or byte pointer that no accessor of a scalar / number reads)
+var c17lenient = false
+
 func c17compare(n *c17node, m *RedisMessage, path string) string {
 	if m.typ != n.Typ {
 		return fmt.Sprintf("%s: typ %q want %q", path, m.typ, n.Typ)
@@ -78,14 +82,14 @@ func c17compare(n *c17node, m *RedisMessage, path string) string {
 		if m.intlen != n.Num {
 			return fmt.Sprintf("%s: number %d want %d", path, m.intlen, n.Num)
 		}
-		if m.bytes != nil || m.array != nil {
+		if !c17lenient && (m.bytes != nil || m.array != nil) {
 			return path + ": number with payload"
 		}
 	default:
 		if m.string() != string(n.Str) {
 			return fmt.Sprintf("%s: string %q want %q", path, m.string(), n.Str)
 		}
-		if len(m.values()) != 0 {
+		if !c17lenient && len(m.values()) != 0 {
 			return path + ": string with children"
 		}
 	}
@@ -223,6 +227,29 @@ func c17roundTrip(r *vrun.Run, c *c17case) {
 	if back.getExpireAt() != c.Exp || back.CachePXAT() != wantPXAT || !back.IsCacheHit() {
 		r.Outcome("expiry differs")
 		r.Violate("round trip changes the expiry", fmt.Sprintf("tree %s exp %d: getExpireAt=%d CachePXAT=%d IsCacheHit=%v", c17desc(c.Tree), c.Exp, back.getExpireAt(), back.CachePXAT(), back.IsCacheHit()), c17payload(c))
+		return
+	}
+	// the same bytes decoded into a receiver that is being reused (it held a non-empty aggregate before): same value
+	var dirty RedisMessage
+	p, site = vrun.Catch(func() {
+		prev := c17build(&c17node{Typ: '%', Kids: []*c17node{{Typ: '+', Str: []byte("k")}, {Typ: ':', Num: 1}, {Typ: '+', Str: []byte("k2")}, {Typ: '*', Kids: []*c17node{{Typ: ':', Num: 2}}}}})
+		prev.setExpireAt(1)
+		if e := dirty.CacheUnmarshalView(prev.CacheMarshal(nil)); e != nil {
+			panic("harness: cannot prepare the reused receiver: " + e.Error())
+		}
+		err = dirty.CacheUnmarshalView(append([]byte(nil), buf...))
+	})
+	if p != nil || err != nil {
+		r.Outcome("reused receiver: panic or error")
+		r.Violate("round trip into a reused receiver fails ("+c17rootClass(c.Tree)+")", fmt.Sprintf("tree %s exp %d: panic %v (%s) err %v", c17desc(c.Tree), c.Exp, p, site, err), c17payload(c))
+		return
+	}
+	c17lenient = true
+	d := c17compare(c.Tree, &dirty, "")
+	c17lenient = false
+	if d != "" || dirty.getExpireAt() != c.Exp {
+		r.Outcome("reused receiver: tree differs")
+		r.Violate("round trip into a reused receiver changes the value ("+c17rootClass(c.Tree)+")", fmt.Sprintf("tree %s exp %d decoded into a message that held a 4-element map before: %s (expiry %d)", c17desc(c.Tree), c.Exp, d, dirty.getExpireAt()), c17payload(c))
 		return
 	}
 	r.Outcome("round trip ok")
@@ -398,7 +425,7 @@ func TestVerif_C17(t *testing.T) {
 		r.Bounds["corruption_max_nodes"] = corruptNodes
 		exps := []int64{0, 1, 1 << 48, 1<<55 - 1}
 		r.Bounds["expiries"] = exps
-		r.Rule = "every message tree with <= max_nodes nodes over leaves {blob string, simple string ('', a, 'a CRLF b\\x00'), verbatim, big number, double (stored as text), blob/simple error, int 0 1 -1 minInt64 maxInt64, bool, null} and aggregates {array, set, map (even size)} x expiry {0, 1, 2^48, 2^55-1}: CacheMarshal(nil) and CacheMarshal(into a preallocated buffer), length == CacheSize, CacheUnmarshalView gives the same tree, types, expiry and cache-hit mark; every strict prefix of each marshalled buffer (trees <= truncation_max_nodes, expiry 2^48) must give ErrCacheUnmarshal without panic and without allocating > 1 MiB; single byte corruptions of every length field for trees <= corruption_max_nodes nodes are probed (notes only). plus arrays, sets and maps with element counts around the decoder's preallocation bound (maxPrealloc/sizeof(message) -2..+2, twice that, 4096, 5000), alone and nested between siblings. non-trivial = aggregate trees and strings with payload"
+		r.Rule = "every message tree with <= max_nodes nodes over leaves {blob string, simple string ('', a, 'a CRLF b\\x00'), verbatim, big number, double (stored as text), blob/simple error, int 0 1 -1 minInt64 maxInt64, bool, null} and aggregates {array, set, map (even size)} x expiry {0, 1, 2^48, 2^55-1}: CacheMarshal(nil) and CacheMarshal(into a preallocated buffer), length == CacheSize, CacheUnmarshalView gives the same tree, types, expiry and cache-hit mark, into a fresh message and into one that is being reused (it held a 4-element map before); every strict prefix of each marshalled buffer (trees <= truncation_max_nodes, expiry 2^48) must give ErrCacheUnmarshal without panic and without allocating > 1 MiB; single byte corruptions of every length field for trees <= corruption_max_nodes nodes are probed (notes only). plus arrays, sets and maps with element counts around the decoder's preallocation bound (maxPrealloc/sizeof(message) -2..+2, twice that, 4096, 5000), alone and nested between siblings. non-trivial = aggregate trees and strings with payload"
 		r.Assume("push and attribute messages are not cacheable replies (the serializer does not keep their children) and are not generated")
 		r.Assume("corrupted (not truncated) buffers are outside the property statement; panics or large allocations on them are recorded as notes, not violations; corruptions that would make the real code allocate between 4 MiB and 2^48 bytes are skipped for the safety of the machine")
 		r.Assume("expiry is a 56 bit field (setExpireAt stores 7 bytes); values up to 2^55-1 are generated")
